@@ -114,14 +114,14 @@ static void rich_platform(void) { if (A.wifi) vf_rich_platform(); }
 static const int FLOOD_MTUS[] = {576, 577, 578, 579, 580, 581, 582, 583, 584, 585, 586, 587, 588, 589, 590, 591, 592, 593, 594, 595, 1492, 1493, 1500, 9212, 9216};
 #define NFLOOD_MTU ((int)(sizeof FLOOD_MTUS / sizeof FLOOD_MTUS[0]))
 static void exec_flood(uint64_t idx) {
-    int mi = (int)(idx / 6), v = (int)(idx % 6);
+    int mi = (int)(idx / 7), v = (int)(idx % 7);
     size_t mtu = (size_t)FLOOD_MTUS[mi];
     vf_world_init(mtu, (int)A.wifi, (uint8_t)A.fill); rich_platform();
     MTU = mtu; OWN = W.iface[0].mac;
     free(recvbuf); recvbuf = malloc(MTU); memset(recvbuf, (int)A.fill, MTU);
     drv = 0; amap = init_automata_mapping(); asess = init_automata_session();
     int cap = (int)((mtu - 34) / 20);
-    int n = v == 0 ? cap - 1 : v == 1 ? cap : v == 2 ? cap + 1 : v == 3 ? cap + 2 : v == 4 ? 2 * cap + 1 : cap + 30;
+    int n = v == 0 ? cap - 1 : v == 1 ? cap : v == 2 ? cap + 1 : v == 3 ? cap + 2 : v == 4 ? 2 * cap + 1 : v == 5 ? cap + 30 : 1030;      /* 1030: beyond the responder's own bound on recorded observations */
     pev e = ev_discover(0, ST_M1, ST_M1, 0x1234, 1); deliver_pev(&e);
     for (int round = 0; round < 2; round++) {
         for (int k = 0; k < n; k++) {
@@ -135,7 +135,7 @@ static void exec_flood(uint64_t idx) {
     }
 }
 static void describe_flood(uint64_t idx, FILE *f) {
-    int mi = (int)(idx / 6), v = (int)(idx % 6);
+    int mi = (int)(idx / 7), v = (int)(idx % 7);
     fprintf(f, "\"events\":[%llu],\"flood_mtu\":%d,\"flood_variant\":%d,\"history\":\"Discover; n distinct Probe/Train observations (n = capacity-1, capacity, +1, +2, 2*capacity+1, capacity+30 by variant); Query x2; second round\"", (unsigned long long)idx, FLOOD_MTUS[mi], v);
 }
 
@@ -214,7 +214,7 @@ int main(int argc, char **argv) {
     }
     uint64_t total, lo, hi;
     if (hello) { total = NHELLO; lo = 0; hi = total; }
-    else if (flood) { total = (uint64_t)NFLOOD_MTU * 6; lo = 0; hi = total; }
+    else if (flood) { total = (uint64_t)NFLOOD_MTU * 7; lo = 0; hi = total; }
     else if (two) { total = 2ull * (uint64_t)(NF1 + 1) * (uint64_t)NFULL; lo = total * (uint64_t)A.part / (uint64_t)A.nparts; hi = total * (uint64_t)(A.part + 1) / (uint64_t)A.nparts; }
     else if (drv == 2) { NIMG = NFIRST + 40; total = (uint64_t)NIMG * (MTU + 1); lo = total * (uint64_t)A.part / (uint64_t)A.nparts; hi = total * (uint64_t)(A.part + 1) / (uint64_t)A.nparts; }
     else { total = (uint64_t)NPRE * (uint64_t)(NF1 + 1) * (uint64_t)NFULL; lo = total * (uint64_t)A.part / (uint64_t)A.nparts; hi = total * (uint64_t)(A.part + 1) / (uint64_t)A.nparts; }
@@ -222,7 +222,7 @@ int main(int argc, char **argv) {
     R.evaluations = st.executed; R.exhaustive = st.cap == NULL; R.cap_hit = st.cap;
     if (hello) vf_sample("Hello assembly: %d interface attribute tuples (characteristics word {0, each single bit, all ones} x wired/wireless x machine-name length {0,1,31,32,33,63} x SSID length {0,1,31,32,33,40} x getter failures {none, BSSID, all but the hardware address} x numeric extremes), a topology and a bridged quick Discover each, under ASan/UBSan", NHELLO);
     else if (two) vf_sample("two interfaces (MTU %zu and %zu) on one responder: (%d first frames + a one-descriptor Emit) on one interface, then each of %d second frames on the other, both orders; executions [%llu,%llu)", mtu2[0], mtu2[1], NF1, NFULL, (unsigned long long)lo, (unsigned long long)hi);
-    else if (flood) vf_sample("flood: %d MTUs (every residue mod 20 and 14, PPPoE, jumbo) x 6 see-list sizes around the QueryResp capacity x 2 rounds of [observations ; Query ; Query] under ASan/UBSan", NFLOOD_MTU);
+    else if (flood) vf_sample("flood: %d MTUs (every residue mod 20 and 14, PPPoE, jumbo) x 7 see-list sizes (around the QueryResp capacity, and 1030) x 2 rounds of [observations ; Query ; Query] under ASan/UBSan", NFLOOD_MTU);
     else if (drv == 2) vf_sample("esp32 entry: %d frame images x every told length 0..%zu, each handed over as a heap block of exactly that length", NIMG, MTU);
     else vf_sample("%s flavour: %d prefixes x (%d first frames + none) x %d second frames (per-opcode field-class products, all 256 opcodes), MTU %zu, receive buffer malloc(MTU) pre-filled with 0x%02x; executions [%llu,%llu) of %llu", drv ? "darwin" : "linux", NPRE, NF1, NFULL, MTU, A.fill, (unsigned long long)lo, (unsigned long long)hi, (unsigned long long)total);
     vf_extra("shape_space", "%d second-frame shapes, %d first-frame shapes, %d prefixes", NFULL, NF1, NPRE);
